@@ -80,14 +80,26 @@ RegisterAccess st_area_read(const RegisterArea *a, RegisterAtom *dest,
 
 /* libc model (assumption about libc): CBMC 6.11's built-in memcpy copies wrong
  * contents for a symbolic length into a uint16_t array (DESIGN section 9, P6b).
- * Typed access copies one register (2, 4 or 8 octets, symbolic); targets that
- * execute reg_mem_read/reg_mem_write define RT_MEMCPY_MODEL and unwind this
- * loop completely (--unwindset memcpy.0:9 with unwinding assertion). */
+ * Targets that execute reg_mem_read/reg_mem_write define RT_MEMCPY_MODEL: a
+ * plain octet loop, closed by its own loop contract (facts at the ghost word
+ * index g_k and, spelled out, for the first eight octets = one register). */
 #if !VERIF_IS_NATIVE && defined(RT_MEMCPY_MODEL)
+#define ST_MC_B(i, d, s, k) IMPLIES((size_t)(k) < (i), (d)[k] == (s)[k])
 void *memcpy(void *dest, const void *src, size_t n)
 {
+  unsigned char *d = dest;
+  const unsigned char *s = src;
   for (size_t i = 0; i < n; i++)
-    ((unsigned char *)dest)[i] = ((const unsigned char *)src)[i];
+    __CPROVER_assigns(i, __CPROVER_object_upto(d, n))
+    __CPROVER_loop_invariant(i <= n)
+    __CPROVER_loop_invariant(IMPLIES(g_k < n / 2u && 2u * g_k < i, d[2u * g_k] == s[2u * g_k]))
+    __CPROVER_loop_invariant(IMPLIES(g_k < n / 2u && 2u * g_k + 1u < i, d[2u * g_k + 1u] == s[2u * g_k + 1u]))
+    __CPROVER_loop_invariant(ST_MC_B(i, d, s, 0) && ST_MC_B(i, d, s, 1) && ST_MC_B(i, d, s, 2) && ST_MC_B(i, d, s, 3))
+    __CPROVER_loop_invariant(ST_MC_B(i, d, s, 4) && ST_MC_B(i, d, s, 5) && ST_MC_B(i, d, s, 6) && ST_MC_B(i, d, s, 7))
+    __CPROVER_decreases(n - i)
+  {
+    d[i] = s[i];
+  }
   return dest;
 }
 #endif
